@@ -28,7 +28,7 @@ CONSTANTS NI
 Ids == 1..NI
 Rec == ndJsonDeserialize(IOEnv.TRACE)
 
-VARIABLES l, pos, live, capq, stored, skip, bad
+VARIABLES l, pos, live, capq, stored, skip, bad, badsz
 
 Abs(a) == IF a < 0 THEN -a ELSE a
 D(i, q) == Abs(pos[i] - q)
@@ -47,11 +47,13 @@ Admissible(e) ==
 \* a cache hit needs an earlier computed answer with the same scope and query and k' >= k
 HitExplained(e) == e.path # "CacheHit" \/ \E c \in stored : c[1] = e.s /\ c[2] = e.q /\ c[3] >= e.k
 
-Init == l = 1 /\ pos = [i \in Ids |-> 0] /\ live = [i \in Ids |-> FALSE] /\ capq = 0 /\ stored = {} /\ skip = FALSE /\ bad = <<>>
+Init == l = 1 /\ pos = [i \in Ids |-> 0] /\ live = [i \in Ids |-> FALSE] /\ capq = 0 /\ stored = {} /\ skip = FALSE /\ bad = <<>> /\ badsz = <<>>
 
 Next ==
   /\ l <= Len(Rec)
   /\ l' = l + 1
+  \* C20: the query-result cache never holds more entries than its capacity (recorded separately from admissibility)
+  /\ badsz' = IF Rec[l].ev = "search" /\ ~skip /\ Rec[l].qclen > capq THEN Append(badsz, l) ELSE badsz
   /\ LET e == Rec[l] IN
      IF e.ev = "reset"
      THEN /\ pos' = [i \in Ids |-> 0] /\ live' = [i \in Ids |-> FALSE] /\ capq' = e.capq /\ stored' = {}
@@ -66,12 +68,12 @@ Next ==
                     [] e.t = "delete" -> /\ live' = [live EXCEPT ![e.id] = FALSE] /\ pos' = pos /\ stored' = stored
                     [] OTHER -> UNCHANGED <<pos, live, stored>>
      ELSE IF e.ev = "search"
-     THEN LET ok == Admissible(e) /\ HitExplained(e) /\ e.qclen <= capq IN
+     THEN LET ok == Admissible(e) /\ HitExplained(e) IN
           /\ bad' = IF ok THEN bad ELSE Append(bad, l)
           /\ skip' = ~ok
           /\ stored' = IF e.path # "CacheHit" /\ e.cacheable THEN stored \cup {<<e.s, e.q, e.k>>} ELSE stored
           /\ UNCHANGED <<pos, live, capq>>
      ELSE /\ bad' = Append(bad, l) /\ skip' = TRUE /\ UNCHANGED <<pos, live, capq, stored>>
 
-Done == l = Len(Rec) + 1 => PrintT(<<"TRACE-RESULT", Len(Rec), bad>>)
+Done == l = Len(Rec) + 1 => (PrintT(<<"TRACE-RESULT", Len(Rec), bad>>) /\ PrintT(<<"SIZE-RESULT", Len(Rec), badsz>>))
 =============================================================================
